@@ -232,7 +232,8 @@ def runModelBase (T : CaseTable) (s : Store) (name : String) (args : List VCell)
   | "assq" => some (match args with | [x, l] => liftV s (assq fuel s x l) | _ => .err .arity)
   | "assv" => some (match args with | [x, l] => liftV s (assv fuel s x l) | _ => .err .arity)
   | "assoc" => some (match args with | [x, l] => liftV s (assoc fuel s x l) | _ => .err .arity)
-  | "equal?" => some (equalB fuel s args)
+  -- `equal?` terminates on every store (fix dfd9e81): `equalFuel s` is never exhausted (`equal_total`)
+  | "equal?" => some (equalB (max fuel (equalFuel s)) s args)
   | "eq?" => some (eqvB s args)
   | "eqv?" => some (eqvB s args)
   | "vector" => some (vector s args)
